@@ -4,6 +4,12 @@ import json, os
 ROOT = os.path.dirname(os.path.dirname(os.path.abspath(__file__)))
 props = [json.loads(l) for l in open(os.path.join(ROOT, "properties.jsonl"))]
 CLAIMED = {
+ "C01": ("Row-level: kernel-checked theorems for both architectures - if every activation of a thread is exactly described by the registered CFI (some FDE of the containing module covers the frame's lookup address and the DWARF specification step of the row in force yields that activation's return address, caller sp and caller fp; the root's row declares the return address undefined), the walk yields exactly the chain with the caller's sp and fp after every step and completes with Ok(None) - any presentation and section order (through C12, C07, C05). On the real code: programs synthesized from compiler-style function shapes (frame-pointer, frameless with pushes/allocation, leaf, noreturn tail, early-return epilogues, aarch64 return-address signing with the vendor opcode), call chains and every interruption point, compared with the chain known by construction.",
+         "theorem (Coq, induction over activations) + ground-truth scenario oracle on real code",
+         "Rows are taken per instruction boundary as a compiler emits them; deriving them from an instruction-level machine (stage 2) is not done. gimli by contract."),
+ "C08": ("Module relocation: kernel-checked theorems - the moved address falls into the moved module with the same relative address, the per-module callback never looks at the mapping, hence a step at the moved address on the relocated unwinder returns exactly the original result and registers (both architectures; per-module deltas; addresses outside all modules stay outside). Stack relocation and pointer-encoding resolution (inside gimli) are decided on the real code only: every ground-truth scenario is built twice (other load addresses, other stack position, absolute / pc-relative / data-relative encodings) and the two walks must differ exactly by the deltas.",
+         "theorem (Coq, module relocation) + twin-scenario oracle on real code (stack relocation, encodings)",
+         "Partial: equivariance of rule execution under a stack shift is not proved (needs a typing of stack values); gimli's pointer-encoding resolution is outside the model."),
  "C04": ("Kernel-checked decision theorems at the unwind_frame level: no module / module without data / unbuildable index -> exactly the frame-pointer rule; address not covered by any FDE (any presentation) -> leaf rule in a first frame, frame-pointer rule in a caller frame; what both conventions compute; a frame-pointer chain ending in the architecture's null marker is walked completely and completes with Ok(None) (x86_64 tests the current bp, aarch64 the saved fp - stated explicitly). Python convention oracle on the real code over the whole reason matrix and over chains.",
          "theorem (Coq, decision matrix + chain induction) + convention oracle on real code",
          "Mach-O and PE reasons (outside __unwind_info, missing .pdata entry, PE on aarch64) join with their models; empty FDE sets count as 'no usable unwind information'."),
